@@ -62,4 +62,6 @@ def stages(tier, rng, only=None):
     # a thousand elements and more (Trace_Wide): rankings that agree on their first and last elements
     out.append(ac.wide_stage("wide_1000", PID, lambda: ac.wide_cases(rng, 8 if tier == "quick" else 60, ["BioConsert"],
                                                                       flags=(1, 0), complete_only=True)))
+    out.append(ac.wide_stage("permutations_17_plus", PID, lambda: ac.permutation_cases(
+        rng, 14 if tier == "quick" else 140, ["BioConsert"], flags=(1, 0)), chunk=40))
     return [s for s in out if not only or s.name == only]
